@@ -85,6 +85,12 @@ func (a *Analysis) higherOrder(fn *FuncInfo) bool {
 			!a.pure[fn] && !a.escapes[fn] && stmtCount(fn.Decl.Body) <= 40 && !a.callsItself(fn) {
 			ho = true
 		}
+		// a shared helper that computes a duration from the clock and the state ("what is left of the interval"): the
+		// timer rules read durations structurally, an opaque result tells them nothing
+		if sig, ok := fn.Obj.Type().(*types.Signature); ok && sig.Results().Len() == 1 && namedName(sig.Results().At(0).Type()) == "Duration" &&
+			a.ncalls[fn] >= 2 && !a.pure[fn] && !a.escapes[fn] && stmtCount(fn.Decl.Body) <= 20 && !a.callsItself(fn) {
+			ho = true
+		}
 	}
 	if !ho && fn.Pkg.PkgPath == modPath+"/timer" && fn.Decl != nil && fn.Decl.Body != nil && !fn.Decl.Name.IsExported() {
 		// package timer is a handful of public methods over private helpers: each public method is read as a whole
